@@ -188,6 +188,19 @@ def schedules(chk, gwbin, label, cfg, mcases):
             fin = classify(A.req("GET", "/bkt/" + k))
             report("delete|put", s_, k, old, new, [("GET after delete and put finished", fin)] if parked else [], parked, {new, "missing"})
             hk.clear()
+        # 5. an upload of a new key parked before it is published; an object below that key ("<key>/x") is stored meanwhile, which makes
+        # the key a directory: the parked upload is then either refused or, if acknowledged, readable
+        for s_ in ["posix.putobject.beforelink", "posix.link.enter", "posix.link.named", "posix.link.beforerename"]:
+            k, old, new = fresh_key(initial=False)
+            w1, w2, parked = hooks.held(hk, s_, put(A, k, new), put(B, k + "/x", new + 1000))
+            res = []
+            if parked and w1 is not None and w1.status == 200:
+                res.append(("GET of the key after its acknowledged upload", classify(A.req("GET", "/bkt/" + k, headers={"x-amz-checksum-mode": "ENABLED"}))))
+            if parked and w2 is not None and w2.status == 200:
+                c2 = classify(A.req("GET", "/bkt/" + k + "/x", headers={"x-amz-checksum-mode": "ENABLED"}))
+                res.append(("GET of the key below it after its acknowledged upload", c2 if c2 != ("write", new + 1000) else ("write", new)))
+            report("put|put-below", s_, k, old, new, res, parked, {new}, {"first_put": None if w1 is None else (w1.status, w1.code), "put_below": None if w2 is None else (w2.status, w2.code)})
+            hk.clear()
         chk.tie("gateway still running after the schedules (%s)" % label, g.alive(), g.log_tail())
 
 
